@@ -15,7 +15,8 @@ RULE = ('generated grammars (prefix-free and overlapping string terminals, %igno
         'LALR(1) table. Checked: exception class, position (offset, line, column), $END/EOF form, allowed == next set (dynamic), '
         'expected >= next set (earley basic), accepts <= next set and <= expected (LALR). Non-trivial = rejected input whose error is '
         'neither at offset 0 nor at end of input; distinct = (grammar, engine, input)')
-ASSUMPTIONS = ['reference works on lark\'s compiled BNF and terminal patterns (the lexing layer is decided by C07/C01)',
+ASSUMPTIONS = ['thorough tier only: a coverage-guided atheris campaign (16 x 60k executions) over raw bytes into the repository\'s own grammars (JSON, calculator, python.lark + PythonIndenter, the grammar loader) checks the exception-type clause; libFuzzer seeds pin it only approximately',
+               'reference works on lark\'s compiled BNF and terminal patterns (the lexing layer is decided by C07/C01)',
                'viable-prefix sets are exact because generated grammars are reduced (all rules productive and reachable)',
                'overlapping terminals are fixed strings, so dynamic and dynamic_complete see the same match lengths']
 
@@ -232,6 +233,43 @@ def nested_cases(draw):
     return {'gtext': g, 'family': 'tok', 'texts': texts}
 
 
+# ------------------------------------------------------------------ coverage-guided fuzzing (thorough tier)
+def check_fuzz(case, ctx):
+    """runs fuzz/c08_target.py (atheris/libFuzzer, coverage-guided over lark's code) in a subprocess for a fixed number of
+    executions; any exception type other than the documented ones crashes the target and leaves the input behind"""
+    import subprocess, tempfile, shutil, os, sys, base64, glob
+    here = os.path.dirname(os.path.dirname(os.path.abspath(__file__)))
+    d = tempfile.mkdtemp(prefix='c08fuzz-')
+    try:
+        cmd = [sys.executable, os.path.join(here, 'fuzz', 'c08_target.py'), case['target'], '-runs=%d' % case['runs'], '-seed=%d' % case['seed'],
+               '-max_len=96', '-artifact_prefix=' + d + os.sep]
+        r = subprocess.run(cmd, cwd=d, capture_output=True, text=True, timeout=3000)
+        crashes = glob.glob(os.path.join(d, 'crash-*'))
+        if 'No module named' in r.stderr and 'atheris' in r.stderr:
+            raise RuntimeError('atheris is not installed (setup_verif.py installs it into .deps)')
+        if crashes or (r.returncode != 0 and 'Done' not in r.stderr):
+            data = open(crashes[0], 'rb').read() if crashes else b''
+            tail = r.stderr[-1500:]
+            raise Violation('fuzz target %s: parse raised an exception that is not an UnexpectedInput' % case['target'], target=case['target'],
+                            input_base64=base64.b64encode(data).decode(), input_repr=repr(data)[:300], stderr_tail=tail)
+        ctx.label('fuzz:%s' % case['target'])
+        ctx.evaluations += case['runs'] - 1
+        ctx.nontrivial(['fuzz', case['target'], case['seed']], sample={'fuzz_target': case['target'], 'executions': case['runs'], 'libfuzzer_seed': case['seed']})
+    finally:
+        shutil.rmtree(d, ignore_errors=True)
+
+
+def fuzz_cases(runs):
+    def gen(shard, nshards):
+        i = 0
+        for target in ('json', 'calc', 'python', 'larkgrammar'):
+            for k in range(4):
+                i += 1
+                if i % nshards == shard:
+                    yield {'target': target, 'runs': runs, 'seed': 1 + k}
+    return gen
+
+
 def strat(o, fam, n, max_len):
     return gramgen.grammar_and_inputs(o, max_len=max_len, n=n, extra_chars='q' if fam == 'tok' else '').map(
         lambda c: {'g': c['g'], 'texts': c['texts'], 'family': fam})
@@ -239,6 +277,7 @@ def strat(o, fam, n, max_len):
 
 def phases(tier):
     k = 12 if tier == 'thorough' else 1
-    return [Phase('tok', 'hypothesis', strategy=strat(O_TOK, 'tok', 4, 10), max_examples=16000 * k),
+    extra = [Phase('atheris-repository-grammars', 'enumerate', cases=fuzz_cases(60000), check=check_fuzz)] if tier == 'thorough' else []
+    return extra + [Phase('tok', 'hypothesis', strategy=strat(O_TOK, 'tok', 4, 10), max_examples=16000 * k),
             Phase('ovl', 'hypothesis', strategy=strat(O_OVL, 'ovl', 4, 10), max_examples=12000 * k),
             Phase('nested-one-instance-many-errors', 'hypothesis', strategy=nested_cases(), max_examples=4000 * k)]
